@@ -414,7 +414,7 @@ def validate(ctx, traces, variant, label, max_rejects=20):
         with open(inp, "w") as f:
             json.dump({"traces": todo}, f)
         r = tlc.run("TraceSampler", cfg, work=ctx.work, workers=1, env={"IN_FILE": inp}, timeout=1500)
-        if r.out is None:
+        if r.out is None and not r.violation:
             raise tlc.MachineryError("TraceSampler wrote no verdict (%s)" % label)
         fix_coverage(r)
         ctx.tlc(r, "TraceSampler %s %s round %d" % (label, variant, rounds))
